@@ -1197,6 +1197,14 @@ class Engine:
         return SMap(z3.Store(m.has, k, False), m.val, m.size - 1, m.kt, m.vt)
 
     def make_exc(self, node, st) -> SExc:
+        bare = node.func if isinstance(node, ast.Call) and not node.args and not node.keywords else node
+        if isinstance(bare, ast.Name) and bare.id in EXC_NAMES and bare.id not in st.env:
+            try:
+                getattr(builtins, bare.id)()
+            except TypeError:
+                return SExc('TypeError')  # a builtin exception class that cannot be instantiated without arguments
+            except Exception:
+                pass
         if isinstance(node, ast.Call):
             name = _dotted(node.func)
             if name is not None and isinstance(st.env.get(name, None) if '.' not in name else None, (type(None), SDotted)):
@@ -2623,7 +2631,7 @@ class Engine:
             args = [self.ev(a, st) for a in node.args]
             kw = {k.arg: self.ev(k.value, st) for k in node.keywords}
             return self.call_contract(self.callees[fname], args, kw, st, node)
-        func = self.ev(node.func, st) if not isinstance(node.func, ast.Name) or node.func.id in st.env else SDotted(node.func.id)
+        func = self.ev(node.func, st) if not isinstance(node.func, ast.Name) or node.func.id in st.env or node.func.id in st.env.get('__locals__', ()) else SDotted(node.func.id)
         if isinstance(func, SFunc):
             was = getattr(self, 'in_spec', False)
             self.in_spec = True
